@@ -221,6 +221,9 @@ impl Mon {
         if self.on.iter().any(|p| matches!(*p, "C04" | "C05" | "C07" | "C09" | "C10" | "C11" | "C12")) {
             self.risk_on_ix(w, v, &info);
         }
+        if info.kind == Kind::PulseHealth && self.on.iter().any(|p| matches!(*p, "C04" | "C07" | "C13" | "C14")) {
+            self.pulse_on_ix(v, &info);
+        }
         if self.on.iter().any(|p| matches!(*p, "C07" | "C14")) {
             self.killed_forever(&info);
         }
